@@ -38,6 +38,11 @@ def run(sh):
         seed = core.stable_int(sh.seed, 'C05', 'scratch', i) % (1 << 40)
         engine_line.run_spec(sh, 'C05', modelgen.generate_scratch_batches(seed, pol[i % 4]), MONITORS, nontrivial,
                              prefix='scratch_')
+    # user code (a gate's decider) failing in the middle of a multi-part release; the caller carries on
+    for i in sh.share(max(24, n // 10)):
+        seed = core.stable_int(sh.seed, 'C05', 'errbuf', i) % (1 << 40)
+        engine_line.run_spec(sh, 'C05', modelgen.generate_error_buffer(seed, pol[i % 4]), MONITORS, nontrivial,
+                             prefix='error_path_')
 
 
 def replay(sh, v):
